@@ -1,11 +1,15 @@
 """C16 - placeholder templates evaluate like Python and never go stale.
 
-Implementation side: the real PlaceholderManager on a real machine in a game (machine variables, a setting, player
-variables, a monitored counter): build_raw_template(text).evaluate / evaluate_and_subscribe.
-Model side: MpfVerif.Model.Template through the compiled driver (eval in both modes, and its Python semantics `py`).
-Oracle (model independent): CPython's own eval of the same text in a namespace of recording stand-ins for the
-placeholder objects (strict variant: `a and b` rewritten to a helper evaluating both operands), and for the change
-histories: after changing a location the evaluation read, the subscription future must be done.
+Implementation side: the real PlaceholderManager on a real machine (harness/common/tmpl_c16.py: two modes, timer, shot, counter,
+state machine, switch, two settings, up to four players) driven through generated histories - game start / end, players
+added, turn rotation, mode start / stop, variable / setting / device changes, time: build_raw_template(text).evaluate /
+evaluate_and_subscribe and build_text_template(text) likewise.
+Model side: MpfVerif.Model.Template through the compiled driver (eval in both modes, text templates, and its Python semantics).
+Oracle (model independent): CPython's own eval of the same text in a namespace of recording stand-ins for the placeholder
+objects whose values are read directly from the machine's objects (strict variant: `a and b` rewritten to a helper evaluating
+both operands); string.Formatter with those values for text templates; and for the histories: (1) after an operation that
+changed a location the evaluation read, the subscription future must be done, (2) a re-evaluate loop like
+config_player._update_subscription must hold the value a fresh evaluation gives.
 """
 import ast
 import asyncio
@@ -18,25 +22,34 @@ ID = "C16"
 LEAN_MODULES = ["MpfVerif.Props.C16"]
 PROPS_FILE = "MpfVerif/Props/C16.lean"
 MANIFEST = {
-  "text": "Proof on a Lean model of the template evaluator (expression AST of the supported grammar over int / exact dyadic float / bool / str / None / tuples / placeholder objects; `eval` transcribes BasePlaceholderManager._eval_* including the subscription list and a log of the locations read; `py` is Python's semantics for the same grammar, strict = all and/or operands evaluated, lazy = Python's short-circuit), all by structural induction over every expression and environment: (tables_correct) the operator tables the model dispatches through equal the OPERATORS / BOOL_OPERATORS / COMPARISONS dict literals regenerated from placeholder_manager.py on every run (`decide`); (reads_subscribed) every location read during an evaluation is in the returned subscription list, on value and on error paths; (fresh) if another environment has the same parameters and agrees on every subscribed location, the evaluation gives the identical result - value or error class, subscription list, read log - so a template that is not notified cannot be stale; (eval_is_python) in both modes the evaluator's outcome is the strict Python outcome seen through MPF's error mapping: Python's value, or the default exactly when Python raises TypeError / a name is missing (evaluate) / an attribute is read from a falsy parent (subscribe), a rejection for every other exception; (all_operands_agree_with_short_circuit, value_is_pythons) whenever the strict evaluation yields a value, Python's short-circuit evaluation yields the same value, so every value the evaluator returns is Python's value. The model and its operator semantics are tied to the code and to CPython by a correspondence run: generated expressions up to size 12 evaluated by the real evaluate / evaluate_and_subscribe, by the Lean driver (eval in both modes, py strict, py lazy, read log) and by CPython eval of the same text; and change histories of machine variables, a setting, player variables and a monitored device attribute checking that the future completes after every change of something read.",
-  "note": "Trusted: Lean kernel + {propext, Classical.choice, Quot.sound}; the hand-written model Model/Template.lean incl. its operator semantics (validated against CPython on every run, not proved); harness/corr/C16.py table translator; event delivery of machine_var_/player_ events (C01) and DeviceMonitor. Documented deviation from Python: all and/or operands are evaluated. Chained comparisons, operators outside the tables, slices, str %, float pow / inexact division are outside the model (rejected by MPF or marked unmodelled and skipped).",
-  "technique": "Lean 4 theorems (structural induction on the expression for fresh / reads_subscribed / eval_is_python / strict-vs-short-circuit, `decide` on regenerated tables) + differential correspondence against the real evaluator and CPython eval as oracle",
+  "text": "Proof on a Lean model of the template evaluator (expression AST of the supported grammar - unary / binary / comparison / and-or / conditional / tuple / attribute / subscript / slice - over int / exact dyadic float / bool / str / None / tuples / placeholder objects of every root: machine incl. machine.time, settings, current_player, players[n], game, mode, device.<collection>.<name>; locations can be absent = the placeholder raises ValueError: not in a game, player not in the game, unknown device attribute; `eval` transcribes BasePlaceholderManager._eval_* including the subscription list and a log of the locations read; `py` is Python's semantics for the same grammar, strict = all and/or operands evaluated, lazy = Python's short-circuit; text templates = literal pieces and {expression:spec} fields), all by structural induction over every expression / piece list and every environment: (tables_correct) the operator tables the model dispatches through equal the OPERATORS / BOOL_OPERATORS / COMPARISONS dict literals regenerated from placeholder_manager.py on every run (`decide`; `in`, `not in`, `is` and every operator outside them are rejected); (reads_subscribed, text_reads_subscribed) every location read during an evaluation is in the returned subscription list, on value and on error paths; (fresh, text_fresh) if another environment has the same parameters and placeholder objects and agrees - value or absence - on every subscribed location, the evaluation gives the identical result, so a template that is not notified cannot be stale; (eval_is_python, text_is_python) in both modes the evaluator's outcome is the strict Python outcome seen through MPF's error mapping: Python's value, or the default exactly when Python raises TypeError (also from indexing / slicing / str %) / a name is missing or a ValueError is raised (evaluate) / an attribute is read from a falsy parent (subscribe) / the location is absent, a rejection for every other exception and for the unsubscribable roots mode and game when subscribing; (all_operands_agree_with_short_circuit, value_is_pythons) whenever the strict evaluation yields a value, Python's short-circuit evaluation yields the same value. The model and its operator semantics (floor division and modulo with Python's sign rules, ** with negative and large exponents, int/float/bool mixing, string comparison / concatenation / repetition, str %, indexing and slicing with negative and out-of-range bounds) are tied to the code and to CPython by a correspondence run: generated expressions up to size 12 and text templates evaluated by the real evaluate / evaluate_and_subscribe on a real machine in generated states (no game / game / several players / modes running), by the Lean driver (eval in both modes, py strict, py lazy, read log, text) and by CPython eval of the same text; and change histories over all roots checking that the future completes after every change of something read (game start and end, player added, turn rotation, mode start / stop, device changes, the clock) and that a re-evaluate loop holds the fresh value.",
+  "note": "Trusted: Lean kernel + {propext, Classical.choice, Quot.sound}; the hand-written model Model/Template.lean incl. its operator semantics (validated against CPython on every run, not proved); harness/corr/C16.py table translator; event delivery of machine_var_/player_ events (C01) and DeviceMonitor. Documented deviation from Python: all and/or operands are evaluated. Outside the model (answered `unmodelled`, judged by the CPython oracle alone): float results that are not exact in a double, non-integer or huge exponents, tuple comparison / repetition, str % conversions other than %s %d %%, format specs other than empty and d, !r/!s conversions, dict parameters, subscripts of machine.time. Chained comparisons and operators outside the tables are rejected by MPF (checked). mode.* and game.* cannot be subscribed at all (evaluate only; reported).",
+  "technique": "Lean 4 theorems (structural induction on the expression / piece list for fresh / reads_subscribed / eval_is_python / strict-vs-short-circuit, `decide` on regenerated tables) + differential correspondence against the real evaluator on a real machine driven through game / player / mode / device histories, with CPython eval and string.Formatter as oracle",
   "translated": True,
 }
-RULE = ("expressions of the supported grammar generated top-down with size <= 12 over constants (ints, exact dyadic floats, "
-        "bools, short strings, None), parameters (one missing), machine.a/b (attribute and subscript), settings.s1, "
-        "current_player.p, device.counters.c1.value, unary/binary/comparison/and-or/conditional/tuple/subscript nodes; "
-        "values of the variables drawn per case; non-trivial = the expression has at least one operator node and the "
-        "strict CPython evaluation is not a plain constant; distinct = (text, environment); histories: one change of one "
-        "location per subscribed evaluation")
+RULE = ("per case: a real machine in the state reached by a generated operation history (<= 10 cases per machine; operations: "
+        "game start / end, add player, drain = next ball or next player, mode start / stop, machine variable, setting, player "
+        "variable of the current or another player, counter / state machine / timer / shot events, switch, tilt flag, clock "
+        "advance by 0.5 s .. 1 h), an expression of the supported grammar generated top-down with size <= 12 (constants, "
+        "parameters incl. a missing one, 37 locations over the roots machine / machine.time / settings / current_player / "
+        "players[0..2,-1] / game / mode / device (counter, state machine, switch, timer, shot, playfield) reached by attribute "
+        "or subscript, unary / binary incl. ** with negative and large exponents and str %, comparisons incl. the rejected "
+        "in / is, and-or, conditional, tuples, indexing, slices, attribute of a plain value) or a text template of 1-3 pieces "
+        "with format specs, then one more operation biased to change a location that was read; non-trivial = the expression has "
+        "an operator node; distinct = (text, parameters, values of all locations)")
 TRUSTED = [
-    "Model/Template.lean is hand-written; its operator semantics (applyBin/applyCmp/applyUn/truthy) are validated against "
-    "CPython by the run, not derived from it",
-    "modelled, not verified: event delivery for machine_var_*/player_* events, DeviceMonitor attribute futures, Util.any",
+    "Model/Template.lean is hand-written; its operator semantics (applyBin / applyCmp / applyUn / truthy / pyIndex / pySlice / "
+    "fmtScan / fmtVal) are validated against CPython by the run, not derived from it",
+    "modelled, not verified: event delivery for machine_var_*/player_* events, DeviceMonitor attribute futures, Util.any, "
+    "asyncio.sleep; the values of the locations are read from the machine's objects by the harness (snapshot)",
+    "the clock is TestClock.get_datetime patched in the harness process to follow the virtual loop time",
 ]
-ASSUMPTIONS = ["floats are dyadic rationals small enough for exact binary arithmetic; strings are ASCII words",
-               "chained comparisons, unsupported operators and slices are rejected by MPF (checked: never a value)",
-               "all and/or operands are evaluated (documented deviation from Python's short-circuit)"]
+ASSUMPTIONS = ["floats are dyadic rationals; a float result that is not exact in a double is outside the model; strings are ASCII words",
+               "chained comparisons, unsupported operators, calls, lists, dicts are rejected by MPF (checked: never a value)",
+               "all and/or operands are evaluated (documented deviation from Python's short-circuit)",
+               "player variables are set to int / float / str values (Player posts no event for other types); setting a variable "
+               "to an equal value (1 -> True -> 1.0) is not a change",
+               "mode.* and game.* are evaluate-only: subscribing them is rejected (they have no subscribe())"]
 
 
 # ---------------------------------------------------------------------------------------------------------------------
@@ -80,449 +93,290 @@ def gen_tables():
 
 GEN = [gen_tables]
 
+from harness.common.tmpl_c16 import (ABSENT, EVENTS, FLOATS, INTS, LOCS, PVARS, STRS, Real, cpython, expected_out, gen_expr,
+                                      gen_params, gen_text, kinds, render, show_val, tame, text_oracle, text_parses, text_render, text_tokens,
+                                      tokens, top, val_tokens)
+from harness.common.shrink import ddmin
+
+SET_VALS = INTS + ["a", "ab", 1.5, -2.25]
+MACHINE_LEN = 10          # cases per real machine (the op history since boot is the replay input)
+
+
 # ---------------------------------------------------------------------------------------------------------------------
-# expressions: (kind, ...) trees -> python text, strict text, model tokens
+# operations on the machine
 # ---------------------------------------------------------------------------------------------------------------------
-BIN = {"Add": "+", "Sub": "-", "Mult": "*", "FloorDiv": "//", "Div": "/", "Pow": "**", "BitXor": "^", "Mod": "%"}
-CMP = {"Eq": "==", "Lt": "<", "Gt": ">", "LtE": "<=", "GtE": ">=", "NotEq": "!="}
-INTS = [0, 1, 2, 3, -1, -3, 7]
-FLOATS = [0.5, 1.5, -2.25, 2.0, 0.0, -0.5]
-STRS = ["", "a", "ab", "b"]
-PARAMS = ["x", "y", "z"]
-LOCS = ["machine.a", "machine.b", "settings.s1", "settings.s2", "current_player.p", "device.counters.c1.value"]
+def ops_for(r, loc):
+    """operations likely to change the value at `loc`"""
+    p = loc.split(".")
+    v = r.choice(SET_VALS)
+    if p[0] == "machine" and p[1] == "time":
+        return [("advance", r.choice([0.5, 1, 1, 2.5, 60, 60, 3600]))]
+    if p[0] == "machine":
+        return [("mvar", p[1], v)]
+    if p[0] == "settings":
+        return [("setting", p[1], r.choice([0, 1, 2]))]
+    structural = [("drain",), ("game_start",), ("game_end",), ("add_player",)]
+    if p[0] == "current_player":
+        return [("pvar", "cur", p[1], v if p[1] == "p" else r.choice([10, 20, 30])), r.choice(structural)]
+    if p[0] == "players":
+        return [("pvar", r.choice([0, 1, 2]) if p[1] == "-1" else int(p[1]), p[2], v if p[2] == "p" else r.choice([10, 20, 30])),
+                r.choice(structural)]
+    if p[0] == "game":
+        return [r.choice(structural), ("tilt", r.random() < 0.5), ("pvar", "cur", "p", v)]
+    if p[0] == "mode":
+        return [("mode", r.choice(["m1", "m2"]), r.random() < 0.6)]
+    if p[1] == "counters":
+        return [("event", r.choice(EVENTS[:7]))]
+    if p[1] == "state_machines":
+        return [("event", r.choice(["sm_go", "sm_back"]))]
+    if p[1] == "switches":
+        return [("switch", "s_a", r.choice([0, 1]))]
+    if p[1] == "timers":
+        return [("event", r.choice(["t1_start", "t1_stop"])), ("mode", "m1", r.random() < 0.6), ("advance", 1)]
+    if p[1] == "shots":
+        return [("event", r.choice(["sh1_enable", "sh1_do_hit", "sh1_do_hit", "sh1_disable"])), ("mode", "m2", r.random() < 0.7),
+                r.choice(structural)]
+    return [r.choice(structural)]
 
 
-def const_text(v):
-    return repr(v)
+def gen_op(r, reads=()):
+    if reads and r.random() < 0.7:
+        return r.choice(ops_for(r, r.choice(list(reads))))
+    return r.choice(ops_for(r, r.choice(LOCS)))
 
 
-def val_tokens(v):
-    if isinstance(v, bool):
-        return ["b", "1" if v else "0"]
-    if isinstance(v, int):
-        return ["i", str(v)]
-    if isinstance(v, float):
-        n, d = v.as_integer_ratio()
-        return ["f", str(n), str(d.bit_length() - 1)]
-    if v is None:
-        return ["n"]
-    if isinstance(v, str):
-        return ["s", v or "-"]
-    if isinstance(v, tuple):
-        out = []
-        for x in v:
-            out += ["tc"] + val_tokens(x)
-        return out + ["t0"]
-    raise InfraError("value %r" % (v,))
-
-
-def show_val(v):
-    """the model's canonical value text"""
-    if isinstance(v, bool):
-        return "B:1" if v else "B:0"
-    if isinstance(v, int):
-        return "I:%d" % v
-    if isinstance(v, float):
-        if v != v or v in (float("inf"), float("-inf")):
-            return "F:special"
-        n, d = v.as_integer_ratio()
-        return "F:%d:%d" % (n, d.bit_length() - 1)
-    if v is None:
-        return "N"
-    if isinstance(v, str):
-        return "S:" + v
-    if isinstance(v, tuple):
-        s = "T()"
-        for x in reversed(v):
-            s = "T(%s,%s)" % (show_val(x), s)
-        return s
-    return "O:" + type(v).__name__
-
-
-def render(e, strict):
-    k = e[0]
-    if k == "k":
-        return "(%s)" % const_text(e[1])
-    if k == "v":
-        return e[1]
-    if k == "u":
-        return "(%s %s)" % ({"USub": "-", "Not": "not", "UAdd": "+", "Invert": "~"}[e[1]], render(e[2], strict))
-    if k == "o":
-        return "(%s %s %s)" % (render(e[2], strict), BIN.get(e[1], {"LShift": "<<", "BitOr": "|"}.get(e[1])), render(e[3], strict))
-    if k == "c":
-        return "(%s %s %s)" % (render(e[2], strict), CMP[e[1]], render(e[3], strict))
-    if k == "l":
-        if strict:
-            return "_%s(%s, %s)" % (e[1].lower(), render(e[2], strict), render(e[3], strict))
-        return "(%s %s %s)" % (render(e[2], strict), e[1].lower(), render(e[3], strict))
-    if k == "?":
-        return "(%s if %s else %s)" % (render(e[2], strict), render(e[1], strict), render(e[3], strict))
-    if k == "t":
-        return "(" + "".join(render(x, strict) + ", " for x in e[1]) + ")"
-    if k == "a":
-        return "%s.%s" % (render(e[1], strict), e[2])
-    if k == "x":
-        return "%s[%s]" % (render(e[1], strict), render(e[2], strict))
-    if k == "chain":
-        return "(%s < %s < %s)" % (render(e[1], strict), render(e[2], strict), render(e[3], strict))
-    raise InfraError("expr %r" % (e,))
-
-
-def tokens(e):
-    k = e[0]
-    if k == "k":
-        return ["k"] + val_tokens(e[1])
-    if k == "v":
-        return ["v", e[1]]
-    if k == "u":
-        return ["u", e[1]] + tokens(e[2])
-    if k in ("o", "c", "l"):
-        return [k, e[1]] + tokens(e[2]) + tokens(e[3])
-    if k == "?":
-        return ["?"] + tokens(e[1]) + tokens(e[2]) + tokens(e[3])
-    if k == "t":
-        out = []
-        for x in e[1]:
-            out += ["tc"] + tokens(x)
-        return out + ["t0"]
-    if k == "a":
-        return ["a", e[2]] + tokens(e[1])
-    if k == "x":
-        return ["x"] + tokens(e[1]) + tokens(e[2])
-    raise InfraError("expr %r" % (e,))
-
-
-def loc_expr(r, loc):
-    parts = loc.split(".")
-    e = ("v", parts[0])
-    for i, p in enumerate(parts[1:]):
-        if r.random() < 0.35 and parts[0] in ("machine", "current_player", "device"):
-            e = ("x", e, ("k", p))
-        else:
-            e = ("a", e, p)
-    return e
-
-
-def gen_leaf(r):
-    x = r.random()
-    if x < 0.22:
-        return ("k", r.choice(INTS))
-    if x < 0.30:
-        return ("k", r.choice(FLOATS))
-    if x < 0.38:
-        return ("k", r.random() < 0.5)
-    if x < 0.48:
-        return ("k", r.choice(STRS))
-    if x < 0.53:
-        return ("k", None)
-    if x < 0.70:
-        return ("v", r.choice(PARAMS + (["q"] if r.random() < 0.15 else [])))
-    return loc_expr(r, r.choice(LOCS))
-
-
-def gen_expr(r, budget):
-    if budget <= 1 or r.random() < 0.12:
-        return gen_leaf(r)
-    x = r.random()
-    if x < 0.12:
-        return ("u", r.choice(["USub", "Not", "Not"]), gen_expr(r, budget - 1))
-    if x < 0.42:
-        l = r.randint(1, budget - 2) if budget > 2 else 1
-        return ("o", r.choice(list(BIN)), gen_expr(r, l), gen_expr(r, max(1, budget - 1 - l)))
-    if x < 0.62:
-        l = r.randint(1, budget - 2) if budget > 2 else 1
-        return ("c", r.choice(list(CMP)), gen_expr(r, l), gen_expr(r, max(1, budget - 1 - l)))
-    if x < 0.78:
-        l = r.randint(1, budget - 2) if budget > 2 else 1
-        return ("l", r.choice(["And", "Or"]), gen_expr(r, l), gen_expr(r, max(1, budget - 1 - l)))
-    if x < 0.90 and budget >= 4:
-        a = r.randint(1, budget - 3)
-        b = r.randint(1, budget - 2 - a)
-        return ("?", gen_expr(r, a), gen_expr(r, b), gen_expr(r, max(1, budget - 1 - a - b)))
-    if x < 0.97:
-        n = r.choice([0, 1, 2, 2, 3])
-        return ("t", tuple(gen_expr(r, max(1, (budget - 1) // max(n, 1))) for _ in range(n)))
-    n = r.choice([1, 2])
-    return ("x", ("t", tuple(gen_leaf(r) for _ in range(n))), ("k", r.choice([0, 1, 2])))
-
-
-def gen_env(r):
+def pre_ops(r):
+    """randomise the plain variables, then a few structural steps (biased to being in a game)"""
     def val():
         return r.choice([r.choice(INTS), r.choice(INTS), r.choice(FLOATS), r.random() < 0.5, r.choice(STRS), None])
-    return {"params": {p: val() for p in PARAMS},
-            "machine.a": val(), "machine.b": val(),
-            "settings.s1": r.choice([0, 1, 2]),
-            "settings.s2": r.choice([0, 1, 2]),       # a setting backed by a differently named machine variable
-            "current_player.p": r.choice([r.choice(INTS), r.choice(STRS), r.choice(FLOATS)]),
-            "device.counters.c1.value": r.choice([0, 1, 2, 5])}
+    ops = [("mvar", "a", val()), ("mvar", "b", val()), ("pvar", "cur", "p", r.choice(SET_VALS + [True, None]))]
+    if r.random() < 0.5:
+        ops.append(("game_start",))
+    for _ in range(r.choice([0, 1, 1, 2])):
+        ops.append(gen_op(r))
+    return ops
+
+
+def same_value_set(real, op):
+    m = real.m
+    if op[0] == "mvar":
+        return m.variables.get_machine_var(op[1]) == op[2]
+    if op[0] == "setting":
+        return m.settings.get_setting_value(op[1]) == op[2]
+    if op[0] == "pvar" and m.game and m.game.player:
+        pl = m.game.player if op[1] == "cur" else (m.game.player_list[op[1]] if op[1] < len(m.game.player_list) else None)
+        return pl is not None and pl.vars.get(op[2], 0) == op[3]
+    return False
+
+
+def changed_locs(env0, env1):
+    out = set()
+    for loc in set(env0["vals"]) | set(env1["vals"]):
+        a, b = env0["vals"].get(loc, ABSENT), env1["vals"].get(loc, ABSENT)
+        if (a is ABSENT) != (b is ABSENT) or (a is not ABSENT and a != b):
+            out.add(loc)
+    return out
 
 
 # ---------------------------------------------------------------------------------------------------------------------
-# CPython oracle namespace (records reads)
-# ---------------------------------------------------------------------------------------------------------------------
-class Rec:
-    def __init__(self, env, path, reads):
-        object.__setattr__(self, "_e", (env, path, reads))
-
-    def _get(self, item):
-        env, path, reads = object.__getattribute__(self, "_e")
-        p = path + [str(item)]
-        depth = 2 if p[0] == "device" else 0
-        if len(p) - 1 <= depth:
-            return Rec(env, p, reads)
-        loc = ".".join(p)
-        reads.append(loc)
-        return env.get(loc)
-
-    def __getattr__(self, item):
-        return self._get(item)
-
-    def __getitem__(self, item):
-        env, path, reads = object.__getattribute__(self, "_e")
-        if path[0] == "settings":
-            raise TypeError("not subscriptable")
-        return self._get(item)
-
-
-def cpython(text, env, strict):
-    reads = []
-    ns = dict(env["params"])
-    for root in ("machine", "settings", "current_player", "device"):
-        ns[root] = Rec(env, [root], reads)
-    ns["_and"] = lambda a, b: a and b
-    ns["_or"] = lambda a, b: a or b
-    try:
-        v = eval(text, {"__builtins__": {}}, ns)
-    except TypeError:
-        return "raise TypeError", reads
-    except NameError:
-        return "raise NameError", reads
-    except AttributeError:
-        return "raise AttributeError", reads
-    except (ZeroDivisionError, IndexError, KeyError, OverflowError, ValueError):
-        return "raise Other", reads
-    if isinstance(v, complex) or isinstance(v, Rec) or (isinstance(v, int) and abs(v) > 10 ** 30):
-        return "unmodelled", reads
-    return "ok " + show_val(v), reads
-
-
-def top(out):
-    """BaseTemplate.evaluate: a template whose value is None yields the default"""
-    return "default" if out == "ok N" else out
-
-
-def expected_out(py, sub):
-    """MPF's documented mapping of the strict Python outcome"""
-    if py.startswith("ok") or py == "unmodelled":
-        return top(py)
-    return {"raise TypeError": "default", "raise NameError": "crash" if sub else "default",
-            "raise AttributeError": "default" if sub else "crash", "raise Other": "crash"}[py]
-
-
-# ---------------------------------------------------------------------------------------------------------------------
-# real machine
-# ---------------------------------------------------------------------------------------------------------------------
-CONFIG = """
-settings:
-  s1:
-    label: s1
-    values:
-      0: zero
-      1: one
-      2: two
-    default: 0
-    key_type: int
-    sort: 1
-  s2:
-    label: s2
-    values:
-      0: zero
-      1: one
-      2: two
-    default: 0
-    key_type: int
-    sort: 2
-    machine_var: op_s2_backing
-counters:
-  c1:
-    count_events: c1_count
-    starting_count: 0
-    control_events:
-      - action: jump
-        event: c1_set0
-        value: 0
-      - action: jump
-        event: c1_set1
-        value: 1
-      - action: jump
-        event: c1_set2
-        value: 2
-      - action: jump
-        event: c1_set5
-        value: 5
-"""
-
-
-class Real:
-    SENT = object()
-
-    def __init__(self):
-        from harness.common.vmachine import VMachine
-        self.broken = False
-        self.vm = VMachine(CONFIG, game=True).start()
-        self.vm.start_game()
-        self.vm.advance(1)
-        self.m = self.vm.machine
-        if not self.m.game or not self.m.game.player:
-            raise InfraError("no game / player")
-        self.pm = self.m.placeholder_manager
-
-    def set_loc(self, loc, v):
-        m = self.m
-        if loc.startswith("machine."):
-            m.variables.set_machine_var(loc.split(".")[1], v)
-        elif loc in ("settings.s1", "settings.s2"):
-            m.settings.set_setting_value(loc.split(".")[1], v)
-        elif loc == "current_player.p":
-            m.game.player["p"] = v
-        elif loc == "device.counters.c1.value":
-            m.events.post("c1_set%d" % v)
-        self.vm.run()
-
-    def set_env(self, env):
-        for loc in LOCS:
-            self.set_loc(loc, env[loc])
-        if self.m.counters["c1"].value != env["device.counters.c1.value"]:
-            raise InfraError("counter value not set")
-
-    def evaluate(self, text, params):
-        try:
-            tpl = self.pm.build_raw_template(text, default_value=self.SENT)
-            v = tpl.evaluate(dict(params))
-        except BaseException as e:
-            return "crash"
-        return "default" if v is self.SENT else "ok " + show_val(v)
-
-    def subscribe(self, text, params):
-        try:
-            tpl = self.pm.build_raw_template(text, default_value=self.SENT)
-            v, fut = tpl.evaluate_and_subscribe(dict(params))
-            self.vm.run()       # a broken subscription list only explodes inside the Util.any task
-        except BaseException as e:
-            self.broken = True
-            return "crash", None
-        return ("default" if v is self.SENT else "ok " + show_val(v)), fut
-
-    def close(self):
-        self.vm.stop()
-
-
-def other_value(r, loc, cur):
-    if loc in ("settings.s1", "settings.s2"):
-        return r.choice([x for x in (0, 1, 2) if x != cur])
-    if loc == "device.counters.c1.value":
-        return r.choice([x for x in (0, 1, 2, 5) if x != cur])
-    return r.choice([x for x in INTS + ["a", "ab", 1.5] if x != cur])     # 2.0 -> 2 is not a change
-
-
-# ---------------------------------------------------------------------------------------------------------------------
-def model_set_env(model, env):
+def model_set_env(model, env, params):
     model.ask("clear")
-    for p, v in env["params"].items():
+    for p, v in params.items():
         if model.ask("param %s %s" % (p, " ".join(val_tokens(v)))) != "ok":
             raise InfraError("model param")
-    for loc in LOCS:
-        if model.ask("set %s %s" % (loc, " ".join(val_tokens(env[loc])))) != "ok":
-            raise InfraError("model set")
+    for o in env["objs"]:
+        if model.ask("obj " + o) != "ok":
+            raise InfraError("model obj")
+    for loc, v in env["vals"].items():
+        line = "absent " + loc if v is ABSENT else "set %s %s" % (loc, " ".join(val_tokens(v)))
+        if model.ask(line) != "ok":
+            raise InfraError("model set %s" % line)
 
 
-def sig_of(e, what):
+def sig_of(kind, e, what):
+    if kind == "text":
+        return "%s:text" % what
     return "%s:%s" % (what, e[0] + (":" + e[1] if e[0] in "uocl" else ""))
 
 
-def eval_case(ctx, real, model, r, e, env, sample=True):
-    text, stext = render(e, False), render(e, True)
-    case = {"text": text, "env": repr(env), "expr": repr(e)}
-    py_strict, reads = cpython(stext, env, True)
-    py_lazy, _ = cpython(text, env, False)
-    nontrivial = e[0] not in ("k", "v")
-    ctx.evaluated({"text": text, "env": env}, nontrivial, sample=sample)
-    ctx.count("top_" + e[0])
-    ctx.count("py_" + py_strict.split(" ")[0] + ("_" + py_strict.split(" ")[1] if py_strict.startswith("raise") else ""))
-    if py_strict.startswith("ok") and py_lazy != py_strict:
-        raise InfraError("strict/lazy CPython differ on %s: %s vs %s" % (text, py_strict, py_lazy))
-    if real.broken:     # an exception escaped into the event loop: continue on a fresh machine
-        real.close()
-        real.__init__()
-        ctx.count("machine_rebuilt")
-    real.set_env(env)
-    got0 = real.evaluate(text, env["params"])
-    got1, fut = real.subscribe(text, env["params"])
-    if "F:special" in py_strict or py_strict == "unmodelled":
-        ctx.count("skipped_unmodelled_oracle")
+def roots_of(reads):
+    return "+".join(sorted({l.split(".")[0] for l in reads})) or "none"
+
+
+def check_case(ctx, real, model, case, sample=True):
+    """case = {kind, expr|pieces, params, change}; the machine is in the state reached by real.history"""
+    kind, params, change = case["kind"], case["params"], case["change"]
+    if kind == "text":
+        pieces = case["pieces"]
+        text = text_render(pieces)
+        e = None
+        used = set()
+        for p in pieces:
+            if p[0] == "fld":
+                used |= kinds(p[1])
     else:
-        for sub, got in ((False, got0), (True, got1)):
-            want = expected_out(py_strict, sub)
-            if got != want:
-                ctx.fail(sig_of(e, "value" if want.startswith("ok") or got.startswith("ok") else "error-class"),
-                         dict(case, mode="subscribe" if sub else "evaluate"),
-                         {"implementation": got, "python_strict": py_strict, "expected": want})
-                break
-    if model is not None:
-        toks = " ".join(tokens(e))
-        model_set_env(model, env)
-        m0 = model.ask("eval 0 " + toks)
-        m1 = model.ask("eval 1 " + toks)
-        mp = model.ask("py strict " + toks)
-        ml = model.ask("py lazy " + toks)
+        e = case["expr"]
+        text = render(e, "mpf")
+        used = kinds(e)
+    env = dict(real.snapshot(), params=params)
+    rep = {"kind": kind, "text": text, "params": repr(params), "history": repr(real.history), "change": repr(change),
+           "expr": repr(e if kind == "expr" else case["pieces"]), "env": repr(env["vals"])}
+    # ---- the specification: CPython's own evaluation of the same text -------------------------------------------------
+    if kind == "text":
+        want = {False: text_oracle(pieces, env, False), True: text_oracle(pieces, env, True)}
+        py0 = want[False][0]
+        reads = want[True][1]
+        raw1 = None
+    else:
+        out = {sub: cpython(render(e, "strict"), env, sub) for sub in (False, True)}
+        lazy = cpython(render(e, "lazy"), env, False)
+        if out[False][0].startswith("ok") and lazy[0] != out[False][0]:
+            raise InfraError("strict/lazy CPython differ on %s: %s vs %s" % (text, out[False][0], lazy[0]))
+        want = {sub: (expected_out(out[sub][0], sub), out[sub][1]) for sub in (False, True)}
+        py0 = out[False][0]
+        reads = out[True][1]
+        raw1 = out[True][2]
+    ctx.evaluated({"text": text, "env": env["vals"], "params": params}, kind == "text" or e[0] not in ("k", "v"), sample=sample)
+    ctx.count("kind_" + kind)
+    for u in used:
+        ctx.count("node_" + u)
+    ctx.count("py_" + py0.replace("raise ", "raise_").split(" ")[0])
+    ctx.count("state_" + ("game" if "game" in env["objs"] else "nogame"))
+    # ---- the implementation ---------------------------------------------------------------------------------------------
+    got0 = real.evaluate(kind, text, params)
+    got1, fut, tpl, rawgot = real.subscribe(kind, text, params)
+    for sub, got in ((False, got0), (True, got1)):
+        w = want[sub][0]
+        if w == "unmodelled":
+            ctx.count("skipped_unmodelled_oracle")
+            continue
+        ok = got == w
+        if not ok and sub and kind == "expr" and ("root:mode" in used or "root:game" in used):
+            # mode / game cannot be subscribed today (rejected); should they become subscribable the value must be Python's
+            ok = got == want[False][0] and want[False][0] != "crash"
+        if not ok:
+            what = "value" if w.startswith("ok") or got.startswith("ok") else "error-class"
+            if py0 == "raise TypeError" and got == "crash" and ({"x", "sl"} & used):
+                what = "typeerror-not-default:subscript"
+            ctx.fail(what if what.startswith("typeerror") else sig_of(kind, e, what),
+                     dict(rep, mode="subscribe" if sub else "evaluate"),
+                     {"implementation": got, "python_strict": py0, "expected": w})
+            break
+    # ---- the model ---------------------------------------------------------------------------------------------------------
+    if model is not None and kind == "text" and not text_parses(pieces):
+        ctx.count("text_not_parsed_as_generated")       # e.g. `{a != b}`: Python's parser rejects it - oracle only
+    elif model is not None:
+        model_set_env(model, env, params)
+        if kind == "text":
+            toks = " ".join(text_tokens(pieces))
+            m0 = model.ask("text 0 " + toks)
+            m1 = model.ask("text 1 " + toks)
+            mp = ml = None
+        else:
+            toks = " ".join(tokens(e))
+            m0 = model.ask("eval 0 " + toks)
+            m1 = model.ask("eval 1 " + toks)
+            mp = model.ask("py strict " + toks)
+            ml = model.ask("py lazy " + toks)
         if "bad-op" in (m0, m1, mp, ml):
             raise InfraError("model rejected %s" % toks)
-        if m0.startswith("unmodelled") or mp == "unmodelled":
+        if m0.startswith("unmodelled") or m1.startswith("unmodelled") or mp == "unmodelled":
             ctx.count("skipped_unmodelled_model")
         else:
-            ctx.compare(dict(case, what="evaluate"), got0, top(m0.split(" |")[0]))
-            ctx.compare(dict(case, what="subscribe"), got1, top(m1.split(" |")[0]))
-            if py_strict != "unmodelled" and "F:special" not in py_strict:
-                ctx.compare(dict(case, what="python-strict"), py_strict, mp)
+            ctx.compare(dict(rep, what="evaluate"), got0, top(m0.split(" |")[0]) if kind == "expr" else m0.split(" |")[0])
+            ctx.compare(dict(rep, what="subscribe"), got1, top(m1.split(" |")[0]) if kind == "expr" else m1.split(" |")[0])
+            if kind == "expr" and py0 != "unmodelled":
+                ctx.compare(dict(rep, what="python-strict"), py0.replace("FalsyParent", "AttributeError"), mp)
                 if ml != "unmodelled":
-                    ctx.compare(dict(case, what="python-lazy"), py_lazy, ml)
-            mreads = sorted(set(m1.split(" |")[2].split()))
-            if got1 != "crash":
-                ctx.compare(dict(case, what="reads"), sorted(set(reads)), mreads)
-    # change history: one change of one location
-    if fut is not None:
+                    ctx.compare(dict(rep, what="python-lazy"), lazy[0].replace("FalsyParent", "AttributeError"), ml)
+            if got1 != "crash" and want[True][0] != "unmodelled":
+                ctx.compare(dict(rep, what="reads"), sorted(set(reads)), sorted(set(m1.split(" |")[2].split())))
+    # ---- change history: the first future, and the re-evaluate loop of config_player._update_subscription ---------------
+    if fut is None:
+        if real.broken:
+            ctx.count("machine_broken")
+        return
+    held = {"out": got1, "n": 0, "fut": fut, "crash": False, "raw": rawgot}
+
+    def again(f):
+        if f.cancelled() or held["n"] > 5000:
+            return
+        held["n"] += 1
         try:
-            loc = r.choice(LOCS)
-            if reads and r.random() < 0.7:
-                loc = r.choice(reads)
-            new = other_value(r, loc, env[loc])
-            was_done = fut.done()
-            real.set_loc(loc, new)
-            done = fut.done()
-            ctx.count("history_changes")
-            if loc in reads:
-                ctx.count("history_change_of_read_location")
-                if not done:
-                    ctx.fail("stale:%s:%s" % (loc.split(".")[0], "subscript" if ("%s[" % loc.split(".")[0]) in text else "attribute"),
-                             dict(case, change=[loc, new]),
-                             {"read": sorted(set(reads)), "future_done": done, "was_done_before": was_done})
-        finally:
-            if not fut.done():
-                fut.cancel()
-        real.vm.run()
+            v, f2 = tpl.evaluate_and_subscribe(dict(params))
+        except BaseException:
+            held["crash"] = True
+            return
+        held["out"], held["fut"], held["raw"] = real.canon(v), f2, v
+        f2.add_done_callback(again)
+    fut.add_done_callback(again)
+    try:
+        was_done = fut.done()
+        try:
+            real.apply(change)
+        except InfraError:
+            raise
+        except BaseException as ex:        # an exception out of the loop while applying the change (re-evaluation is guarded)
+            real.broken = True
+            ctx.count("machine_broken_in_change")
+            return
+        env1 = dict(real.snapshot(), params=params)
+        ch = changed_locs(env, env1)
+        done = fut.done()
+        ctx.count("history_changes")
+        ctx.count("change_" + change[0])
+        hit = sorted(ch & set(reads))
+        if hit:
+            ctx.count("history_change_of_read_location")
+            for l in hit:
+                ctx.count("changed_read_root_" + l.split(".")[0])
+            if not done:
+                where = ".".join(hit[0].split(".")[:2]) if hit[0].startswith(("device.", "machine.time")) else hit[0].split(".")[0]
+                ctx.fail("stale:%s:%s:%s" % (where, "text" if kind == "text" else
+                                             ("subscript" if ("%s[" % hit[0].split(".")[0]) in text else "attribute"), change[0]),
+                         dict(rep), {"read": sorted(set(reads)), "changed": hit, "future_done": done, "was_done_before": was_done})
+                return
+        # the loop must hold the value a fresh evaluation gives now
+        if kind == "text":
+            fresh = text_oracle(pieces, env1, True)[0]
+        else:
+            o1 = cpython(render(e, "strict"), env1, True)
+            fresh = expected_out(o1[0], True)
+            rawfresh = o1[2]
+        if ch and fresh != "unmodelled" and fresh != "crash" and not held["crash"] and want[True][0] not in ("unmodelled", "crash"):
+            ctx.count("loop_checked")
+            if held["n"]:
+                ctx.count("loop_reevaluated")
+            same = held["out"] == fresh
+            if not same and kind == "expr" and held["out"].startswith("ok") and fresh.startswith("ok"):
+                same = held["raw"] == rawfresh      # 1 / True / 1.0 are the same value: no event is due for such a "change"
+            if not same:
+                ctx.fail("stale-loop:%s:%s" % (roots_of(reads), change[0]), dict(rep),
+                         {"held": held["out"], "fresh_python": fresh, "reevaluations": held["n"], "changed": sorted(ch)})
+    finally:
+        f = held["fut"]
+        if f is not None and not f.done():
+            f.cancel()
+        if not fut.done():
+            fut.cancel()
+        try:
+            real.settle()
+        except BaseException:
+            real.broken = True
 
 
+E_MA = ("a", ("v", "machine"), "a")
 CORPUS = [
     (("c", "Eq", ("x", ("v", "machine"), ("k", "a")), ("k", 1)), "D10"),
     (("c", "Eq", ("x", ("v", "current_player"), ("k", "p")), ("k", 1)), "D10"),
     (("t", (("v", "x"), ("k", ""))), "D27"),
     (("o", "Add", ("t", (("k", 1),)), ("t", (("k", 2), ("k", 3)))), "D27"),
-    (("t", (("k", 1), ("v", "y"), ("a", ("v", "machine"), "a"))), "D27"),
+    (("t", (("k", 1), ("v", "y"), E_MA)), "D27"),
     (("u", "USub", ("k", None)), "D28"),
     (("u", "USub", ("k", "a")), "D28"),
-    (("?", ("a", ("v", "machine"), "b"), ("o", "Add", ("a", ("v", "machine"), "a"), ("k", "x")), ("k", 5)), "ite-error-branch"),
+    (("?", ("a", ("v", "machine"), "b"), ("o", "Add", E_MA, ("k", "x")), ("k", 5)), "ite-error-branch"),
     (("l", "And", ("k", False), ("o", "Add", ("k", 1), ("k", "x"))), "all-operands"),
-    (("l", "Or", ("a", ("v", "machine"), "a"), ("a", ("v", "settings"), "s1")), "or"),
+    (("l", "Or", E_MA, ("a", ("v", "settings"), "s1")), "or"),
     (("c", "Lt", ("a", ("a", ("a", ("v", "device"), "counters"), "c1"), "value"), ("k", 2)), "device"),
     (("o", "FloorDiv", ("k", 7), ("k", -2)), "floordiv"),
     (("o", "Mod", ("k", -7), ("k", 2)), "mod"),
@@ -533,34 +387,174 @@ CORPUS = [
     (("c", "Lt", ("k", "a"), ("k", 1)), "lt-type"),
     (("o", "Mult", ("k", "ab"), ("k", 3)), "str-repeat"),
     (("o", "BitXor", ("k", True), ("k", True)), "xor-bool"),
+    # session 3: roots, slices, str %, powers
+    (("c", "Gt", ("a", ("v", "current_player"), "score"), ("k", 5)), "current-player"),
+    (("a", ("x", ("v", "players"), ("k", 1)), "score"), "players"),
+    (("x", ("x", ("v", "players"), ("k", -1)), ("k", "p")), "players"),
+    (("a", ("a", ("v", "mode"), "m1"), "active"), "mode"),
+    (("a", ("a", ("v", "mode"), "nosuch"), "active"), "mode-missing"),
+    (("a", ("v", "game"), "num_players"), "game"),
+    (("a", ("a", ("v", "game"), "player"), "ball"), "game-player"),
+    (("a", ("a", ("v", "machine"), "time"), "second"), "time"),
+    (("a", ("a", ("v", "machine"), "time"), "minute"), "time"),
+    (("a", ("a", ("a", ("v", "device"), "timers"), "t1"), "ticks"), "timer"),
+    (("a", ("a", ("a", ("v", "device"), "shots"), "sh1"), "state_name"), "shot"),
+    (("a", ("a", ("a", ("v", "device"), "counters"), "c1"), "nosuch"), "device-missing-attr"),
+    (("sl", ("k", "abcde"), ("k", 1), ("k", -1), None), "slice"),
+    (("sl", ("k", "abcde"), None, None, ("k", -2)), "slice"),
+    (("sl", ("k", "abcde"), None, None, ("k", 0)), "slice-step0"),
+    (("sl", ("k", 5), ("k", 0), ("k", 1), None), "slice-typeerror"),
+    (("sl", ("t", (E_MA, ("k", 2))), ("o", "Add", ("a", ("v", "machine"), "b"), ("k", "s")), None, None), "slice-failing-bound"),
+    (("sl", ("t", (("o", "FloorDiv", ("k", 1), E_MA), ("k", 2))), None, ("o", "Add", ("a", ("v", "machine"), "b"), ("k", "s")), None),
+     "slice-failing-bound"),
+    (("x", ("k", 1), ("k", 0)), "index-typeerror"),
+    (("x", ("k", "abc"), ("k", "x")), "index-typeerror"),
+    (("x", ("k", "abc"), ("k", 5)), "index-range"),
+    (("x", ("v", "settings"), ("k", "s1")), "index-typeerror"),
+    (("o", "Mod", ("k", "%s-%s"), ("t", (E_MA, ("k", 2)))), "str-mod"),
+    (("o", "Mod", ("k", "%d"), ("k", "a")), "str-mod"),
+    (("o", "Mod", ("k", "%z"), ("k", 1)), "str-mod-valueerror"),
+    (("c", "In", ("k", 1), ("t", (("k", 1), ("k", 2)))), "in"),
+    (("c", "NotIn", ("o", "Add", ("k", 1), ("k", "a")), ("t", (("k", 1),))), "in"),
+    (("o", "Pow", ("k", 2), ("k", -1)), "pow"),
+    (("o", "Pow", ("k", 0), ("k", -1)), "pow"),
+    (("o", "Pow", ("k", 7), ("k", 100)), "pow"),
+    (("o", "Pow", ("k", -2.25), ("k", 3)), "pow"),
+    (("a", ("k", "abc"), "p"), "attr-of-value"),
+    (("a", ("k", 0), "p"), "attr-of-falsy"),
+]
+TEXT_CORPUS = [
+    [("lit", "a="), ("fld", E_MA, "")],
+    [("fld", E_MA, "d"), ("lit", "-"), ("fld", ("a", ("v", "current_player"), "score"), "03d")],
+    [("fld", ("v", "q"), "d")],
+    [("fld", ("a", ("a", ("v", "machine"), "time"), "second"), "02d"), ("lit", "{{"), ("fld", ("v", "x"), "")],
+    [("fld", ("c", "NotEq", ("k", 1), ("k", 2)), "")],
+    [("fld", ("a", ("x", ("v", "players"), ("k", 1)), "score"), "d")],
 ]
 REJECTED = [("o", "LShift", ("k", 1), ("k", 2)), ("o", "BitOr", ("k", 1), ("k", 2)), ("u", "UAdd", ("k", 1)),
             ("u", "Invert", ("k", 1)), ("chain", ("k", 1), ("k", 2), ("k", 3))]
+REJECTED_TEXT = ["[1, 2]", "{1: 2}", "f(1)", "(lambda: 1)", "machine.time.foo", "settings.nosuch", "device.nosuch.c1.value",
+                 "device.counters.nosuch.value", "x if y", "1 +"]
+
+
+def fresh_real(ctx, real):
+    if real is not None:
+        real.close()
+    ctx.count("machines_booted")
+    return Real()
+
+
+def run_stream(ctx, cases_of):
+    """cases_of: iterable of (rng, case-without-change, pre-ops or None); machines are renewed every MACHINE_LEN cases"""
+    model = None if getattr(ctx, "model_unavailable", False) else leanproc.LeanProc(ID)
+    real = None
+    try:
+        n = 0
+        for r, case, pre in cases_of:
+            if real is None or real.broken or n % MACHINE_LEN == 0:
+                real = fresh_real(ctx, real)
+            n += 1
+            for op in (pre if pre is not None else pre_ops(r)):
+                real.apply(op)
+            if "change" not in case:
+                if case["kind"] == "expr":
+                    rd = cpython(render(case["expr"], "strict"), dict(real.snapshot(), params=case["params"]), True)[1]
+                else:
+                    rd = text_oracle(case["pieces"], dict(real.snapshot(), params=case["params"]), True)[1]
+                case["change"] = gen_op(r, rd)
+                for _ in range(6):      # 1 -> True -> 1.0 is not a change (no event is due): draw again
+                    if not same_value_set(real, case["change"]):
+                        break
+                    case["change"] = gen_op(r, rd)
+                else:
+                    case["change"] = ("advance", 1)
+            before = len(ctx.failures)
+            hist = list(real.history)
+            check_case(ctx, real, model, case)
+            if len(ctx.failures) > before and len(hist) > 1 and not ctx.failures[before]["signature"].startswith("unsupported"):
+                shrink_last(ctx, before, hist, case)
+    finally:
+        if real is not None:
+            real.close()
+        if model is not None:
+            model.close()
+
+
+def shrink_last(ctx, idx, hist, case):
+    """ddmin over the op history of the first new failure (re-running the real code on fresh machines)"""
+    sig = ctx.failures[idx]["signature"]
+
+    class Probe:
+        def __init__(self):
+            self.failures, self.hist = [], {}
+        def fail(self, s, c, d):
+            self.failures.append({"signature": s, "case": c, "detail": d})
+        def count(self, *a, **k):
+            pass
+        def evaluated(self, *a, **k):
+            pass
+        def compare(self, *a, **k):
+            return True
+
+    def run_on(ops):
+        real = Real()
+        try:
+            for op in ops:
+                real.apply(tuple(op))
+            p = Probe()
+            check_case(p, real, None, dict(case), sample=False)
+            return [f for f in p.failures if f["signature"] == sig]
+        finally:
+            real.close()
+    try:
+        small = ddmin(hist, lambda ops: bool(run_on(ops)), max_tests=40)
+        res = run_on(small)
+        if res:
+            del ctx.failures[idx:]
+            from harness.common import util as _u
+            ctx.failures.append({"signature": sig, "case": _u.canon(res[0]["case"]), "detail": _u.canon(res[0]["detail"])})
+    except InfraError:
+        raise
+    except Exception:
+        pass
 
 
 def run(ctx):
-    model = None if getattr(ctx, "model_unavailable", False) else leanproc.LeanProc(ID)
-    real = Real()
-    try:
-        r0 = ctx.rng("corpus")
+    def corpus():
         for e, tag in CORPUS:
-            for j in range(4):
-                eval_case(ctx, real, model, r0, e, gen_env(ctx.rng("corpus-env", tag, j)))
-        for e in REJECTED:     # malformed stream: outside the supported grammar -> rejected, never a value
-            text = render(e, False)
-            got = real.evaluate(text, {})
-            ctx.evaluated({"text": text, "rejected": True}, True, sample=False)
-            ctx.count("rejected_stream")
-            if got != "crash":
-                ctx.fail("unsupported-not-rejected:%s" % e[0], {"text": text}, {"implementation": got})
-        for i in range(ctx.n(2500, 40000)):
-            r = ctx.rng("expr", i)
-            e = gen_expr(r, r.choice([2, 3, 4, 5, 6, 8, 10, 12]))
-            eval_case(ctx, real, model, r, e, gen_env(r), sample=True)
+            for j in range(3):
+                r = ctx.rng("corpus", tag, j, repr(e))
+                yield r, {"kind": "expr", "expr": e, "params": gen_params(r)}, None
+        for i, pieces in enumerate(TEXT_CORPUS):
+            for j in range(3):
+                r = ctx.rng("text-corpus", i, j)
+                yield r, {"kind": "text", "pieces": pieces, "params": gen_params(r)}, None
+    run_stream(ctx, corpus())
+
+    real = Real()
+    try:            # malformed stream: outside the supported grammar -> rejected, never a value (in and out of a game)
+        for phase in (0, 1):
+            for item in REJECTED + REJECTED_TEXT:
+                text = item if isinstance(item, str) else render(item, "mpf")
+                ctx.evaluated({"text": text, "rejected": True, "game": phase}, True, sample=False)
+                ctx.count("rejected_stream")
+                for got in (real.evaluate("expr", text, {"x": 1, "y": 0}), real.subscribe("expr", text, {"x": 1, "y": 0})[0]):
+                    if got != "crash":
+                        ctx.fail("unsupported-not-rejected:%s" % (item if isinstance(item, str) else item[0]), {"text": text},
+                                 {"implementation": got})
+            real.apply(("game_start",))
     finally:
         real.close()
-        if model is not None:
-            model.close()
+
+    def stream():
+        for i in range(int(os.environ.get("C16_FIRST_CASE", "0")), ctx.n(3000, 24000)):      # (first case: debugging aid, multiple of 10)
+            r = ctx.rng("expr", i)
+            if r.random() < 0.12:
+                yield r, {"kind": "text", "pieces": gen_text(r), "params": gen_params(r)}, None
+            else:
+                e = tame(gen_expr(r, r.choice([2, 3, 4, 5, 6, 8, 10, 12])))
+                yield r, {"kind": "expr", "expr": e, "params": gen_params(r)}, None
+    run_stream(ctx, stream())
 
 
 def replay(ctx, rep):
@@ -568,21 +562,21 @@ def replay(ctx, rep):
     if "expr" not in case:
         real = Real()
         try:
-            got = real.evaluate(case["text"], {})
-            if got != "crash":
-                ctx.fail("unsupported-not-rejected", case, {"implementation": got})
+            for _ in (0, 1):
+                if real.evaluate("expr", case["text"], {"x": 1, "y": 0}) != "crash":
+                    ctx.fail("unsupported-not-rejected", case, {"implementation": "value"})
+                real.apply(("game_start",))
         finally:
             real.close()
         return
-
-    e = ast.literal_eval(case["expr"])
-    env = ast.literal_eval(case["env"])
+    glb = {"ABSENT": ABSENT}
+    tree = eval(case["expr"], glb)
+    c = {"kind": case["kind"], "params": eval(case["params"], glb), "change": tuple(eval(case["change"], glb))}
+    c["pieces" if case["kind"] == "text" else "expr"] = tree
     real = Real()
     try:
-        import random
-        for seed in range(6):
-            eval_case(ctx, real, None, random.Random(seed), e, env, sample=False)
-            if ctx.failures:
-                break
+        for op in eval(case["history"], glb):
+            real.apply(tuple(op))
+        check_case(ctx, real, None, c, sample=False)
     finally:
         real.close()
